@@ -128,6 +128,12 @@ def main() -> int:
         if rc == 0:
             rc = 2
 
+    # vacuity guard: an exploration that visited nothing, or cannot show a sample of what it visited, decides nothing
+    if not res.samples or res.n_distinct < 1 or res.transitions < 1:
+        print(f"HARNESS-ERROR {prop}: vacuous run (samples={len(res.samples)} states={res.n_distinct} transitions={res.transitions})")
+        if rc == 0:
+            rc = 2
+
     wall = time.time() - t0
     extra = {
         "known_finding_cases": {fid: n for fid, (kf, n, _) in known_hits.items()},
